@@ -85,9 +85,15 @@ def run_dataset(case, ctx):
             iter_common.install_delays(desc, paths, r["delays"])
             iter_common.reset_calls()
             try:
-                got = dsops.read_all(ds, split, iface, **opts)
+                ok, got = oracles.guarded(
+                    ctx, "multiset", ("iteration-raised", iface),
+                    f"{iface} split={split} N={n} S={s} shuffle={shuffle} "
+                    f"file_parallelism={fp} proc={proc} fmt={desc['fmt']}",
+                    lambda: dsops.read_all(ds, split, iface, **opts))
             finally:
                 iter_common.uninstall_delays(desc)
+            if not ok:
+                continue
             want = [rec["id"] for rec in b.h.model[split]]
             ids = []
             for ex in got:
